@@ -108,7 +108,8 @@ def run(ctx):
                      "digests": [r.get("pkg") or r.get("error") for r in results]})
     rep.extra["interpreters"] = nseeds
     rep.extra["differing"] = differing
-    rep.extra["programs"] = {name: outs[0][len(cases) - len(PROGRAMS) + k] for k, name in enumerate(PROGRAMS)}
+    rep.extra["programs"] = len(PROGRAMS)
+    rep.extra["program_digests"] = {name: outs[0][len(cases) - len(PROGRAMS) + k] for k, name in enumerate(PROGRAMS)}
     rep.sample({"design_modules": [m["name"] for m in cases[0]["design"]["modules"]], "digests": [o[0] for o in outs][:3]})
 
 
